@@ -591,6 +591,11 @@ func callSSA(i *interpreter, caller *frame, callpos token.Pos, fn *ssa.Function,
 		if ext := externals[name]; ext != nil {
 			return ext(fr, args)
 		}
+		if cext := condExternals[name]; cext != nil {
+			if r, handled := cext(fr, args); handled {
+				return r
+			}
+		}
 		if fn.Blocks == nil {
 			// generic instantiations and wrappers have bodies; this is an
 			// assembly / linkname function we have no model of.
